@@ -6,6 +6,11 @@ mod common;
 mod inputs;
 mod p01_roundtrip;
 mod p02_refcodec;
+mod p03_nocrash;
+mod p04_consume;
+mod p05_prefix;
+mod p06_resync;
+mod p16_reserialise;
 mod refmodel;
 mod universe;
 mod p17_timestamp;
@@ -68,6 +73,11 @@ fn main() {
         match prop.as_str() {
             "C01" => p01_roundtrip::run(&ctx),
             "C02" => p02_refcodec::run(&ctx),
+            "C03" => p03_nocrash::run(&ctx),
+            "C04" => p04_consume::run(&ctx),
+            "C05" => p05_prefix::run(&ctx),
+            "C06" => p06_resync::run(&ctx),
+            "C16" => p16_reserialise::run(&ctx),
             "C17" => p17_timestamp::run(&ctx),
             "C18" => p18_fixedpoint::run(&ctx),
             _ => {
